@@ -15,10 +15,10 @@ IMPLEMENTATION-SHAPED MODELS, one per store, mirroring the Go code AS IT IS (qui
 * `Alias` pkg/virtualtable/virtualtable.go — one alias file per (org, index) holding the set of alias
           names (`GetAliases` :465, `writeAliasFile` :504, `removeAliasFile` :669) and the in-memory
           inverse `aliasToIndexNames[org][alias] = set of indexes` (`putAliasToIndexInMem` :570);
-          `AddAliases` :395, `RemoveAliases` :629 (deletes the index from the alias' inner map but
-          keeps the — possibly empty — inner map), `GetAllAliasesAsMapArray` :435, `IsAlias` :619,
-          `initializeAliasToIndexMap` :531 (restart: walks the DIRECTORIES of the alias dir only — the
-          files of org 0 lie at the top level and are not read).
+          `AddAliases` :395, `RemoveAliases` :629, `GetAllAliasesAsMapArray` :435, `IsAlias` :619,
+          `initializeAliasToIndexMap` :531 (restart).  The model follows the code WITH patches c20-1 (the
+          top-level files = org 0 are read at restart) and c20-2 (an emptied inner map is dropped); the
+          behaviour before them is kept as `rebuildOld` / `removeMemOld` / `stepOld`.
 
 Keys are byte strings (`List Nat`); values are opaque.  Core Lean only (linked into the oracle).
 -/
@@ -255,8 +255,13 @@ def init : St := { files := [], mem := [] }
 def putMem (m : AL (Nat × Key) (List Key)) (t : Nat) (a i : Key) : AL (Nat × Key) (List Key) :=
   if a = [] ∨ i = [] then m else m.put (t, a) (insSet ((m.get (t, a)).getD []) i)
 
-/-- `initializeAliasToIndexMap`: only the org DIRECTORIES are walked; org 0 has none -/
+/-- `initializeAliasToIndexMap`: the regular `*.json` files at the top level of the alias directory are the
+alias files of org 0, the sub-directories hold those of the other orgs -/
 def rebuild (files : AL (Nat × Key) (List Key)) : AL (Nat × Key) (List Key) :=
+  files.foldl (fun m e => e.2.foldl (fun m a => putMem m e.1.1 a e.1.2) m) []
+
+/-- before patch c20-1: only the org DIRECTORIES were walked — the alias files of org 0 were never read -/
+def rebuildOld (files : AL (Nat × Key) (List Key)) : AL (Nat × Key) (List Key) :=
   files.foldl (fun m e => if e.1.1 = 0 then m else e.2.foldl (fun m a => putMem m e.1.1 a e.1.2) m) []
 
 /-- `RemoveAliases`, file side: rewrite the index' alias file, or remove it when no alias is left
@@ -269,8 +274,15 @@ def removeFile (files : AL (Nat × Key) (List Key)) (t : Nat) (i a : Key) : AL (
     | some _ => (files.del (t, i), .ok)
   else (files.put (t, i) cur, .ok)
 
-/-- `RemoveAliases`, memory side: `delete(aliasToIndexNames[org][alias], index)` — the inner map stays -/
+/-- `RemoveAliases`, memory side: `delete(aliasToIndexNames[org][alias], index)`, and the alias' inner map
+is dropped when it becomes empty -/
 def removeMem (mem : AL (Nat × Key) (List Key)) (t : Nat) (i a : Key) : AL (Nat × Key) (List Key) :=
+  match mem.get (t, a) with
+  | some is => if delSet is i = [] then mem.del (t, a) else mem.put (t, a) (delSet is i)
+  | none => mem
+
+/-- before patch c20-2: the (possibly empty) inner map stayed -/
+def removeMemOld (mem : AL (Nat × Key) (List Key)) (t : Nat) (i a : Key) : AL (Nat × Key) (List Key) :=
   match mem.get (t, a) with
   | some is => mem.put (t, a) (delSet is i)
   | none => mem
@@ -288,6 +300,14 @@ def step (st : St) : Op → St × Out
   | .list t => (st, .amap ((st.mem.filter (fun e => e.1.1 = t)).map (fun e => (e.1.2, e.2))))
   | .resolve t a => (st, .target ((st.mem.get (t, a)).getD []))
   | .restart => ({ st with mem := rebuild st.files }, .restarted)
+
+/-- the behaviour before patches c20-1 / c20-2 (kept for the counterexample theorems) -/
+def stepOld (st : St) : Op → St × Out
+  | .remove t i a =>
+    if !validIndex i then (st, .res .invalid) else
+    ({ files := (removeFile st.files t i a).1, mem := removeMemOld st.mem t i a }, .res (removeFile st.files t i a).2)
+  | .restart => ({ st with mem := rebuildOld st.files }, .restarted)
+  | op => step st op
 
 /-- abstract state: (org, index) ↦ set of alias names -/
 def abs (st : St) : Spec Nat Key (List Key) := fun t i => st.files.get (t, i)
@@ -345,20 +365,18 @@ def RefinesFiles : Spec Nat Key (List Key) → St → List Op → Prop
 /-- memory view: index `i` is listed under alias `a` of tenant `t` in `aliasToIndexNames` -/
 def memView (st : St) (t : Nat) (a i : Key) : Prop := i ∈ (st.mem.get (t, a)).getD []
 
-/-- guard of one step: a removal does not take the LAST index off an alias that the memory map holds,
-and no restart happens while org 0 holds alias files -/
-def stepClean (st : St) : Op → Bool
-  | .remove t i a =>
-    !validIndex i || (match st.mem.get (t, a) with
-      | some is => !(delSet is i).isEmpty
-      | none => true)
-  | .restart => st.files.all (fun e => !decide (e.1.1 = 0))
-  | _ => true
+/-- refinement statement for the OLD behaviour -/
+def RefinesOld : Spec Nat Key (List Key) → St → List Op → Prop
+  | _, _, [] => True
+  | s, st, op :: r =>
+    OutOk s op (stepOld st op).2 ∧ abs (stepOld st op).1 = specStep s op ∧ RefinesOld (specStep s op) (stepOld st op).1 r
 
-/-- the guard along an operation sequence -/
-def Clean : St → List Op → Bool
-  | _, [] => true
-  | st, op :: r => stepClean st op && Clean (step st op).1 r
+def runOld (st : St) : List Op → St × List Out
+  | [] => (st, [])
+  | op :: r =>
+    let (st1, o) := stepOld st op
+    let (st2, os) := runOld st1 r
+    (st2, o :: os)
 
 end Alias
 
@@ -370,9 +388,11 @@ One `folder_structure[-<org>].json` per org: `items` (id ↦ name, type, parent 
 Ids are UUIDs in the code, consecutive numbers here (0 = "root-folder"); the harness numbers the UUIDs in
 creation order.  Mirrors createDashboard :98, toggleFavorite :179, getDashboard :218 with
 refreshFolderMetadata :247 (a READ that rewrites the details file when the stored folder path is stale),
-updateDashboard :318 (no check that the id is a dashboard), deleteDashboard :426, createFolder :258,
-getFolderContents :310, updateFolder :392 (no check that the id is a folder; the duplicate-name test looks
-at siblings of ANY type), deleteFolder :509 with collectItemsToDelete :566, listItems :589.
+updateDashboard :318, deleteDashboard :426, createFolder :258, getFolderContents :310, updateFolder :392
+(the duplicate-name test looks at siblings of ANY type), deleteFolder :509 with collectItemsToDelete :566,
+listItems :589.  `stepG false` follows the code WITH patches c20-3 / c20-4 / c20-5 (type checks in
+updateDashboard / updateFolder, bounded parent walks, org check in getDashboard / toggleFavorite),
+`stepG true` the behaviour before them.
 The default dashboards (`defaultDBs/`, relative to the working directory) are absent. -/
 namespace Dash
 
@@ -504,9 +524,10 @@ def walkEnds (fs : FS) : Nat → Option Nat → Bool
     | none => true
     | some it => walkEnds fs f it.parent
 
-/-- the structure holds a parent cycle: `buildFolderPath` / `generateBreadcrumbs` (`for currentID != ""`)
-never return on it.  `updateDashboard` has no circular-reference check (only `updateFolder` has), so
-"moving" a FOLDER id through the dashboard API under itself or one of its descendants creates one. -/
+/-- the structure holds a parent cycle.  Before patch c20-3 `buildFolderPath` / `generateBreadcrumbs`
+(`for currentID != ""`) never returned on one, and `updateDashboard` — which has no circular-reference check,
+only `updateFolder` has — created one when a FOLDER id was "moved" through it under itself or one of its
+descendants. -/
 def hasCycle (fs : FS) : Bool := fs.items.any (fun e => !walkEnds fs (fuel fs) (some e.1))
 
 def setFS (st : St) (t : Nat) (fs : FS) : St := { st with fs := upd st.fs t fs }
@@ -522,8 +543,16 @@ def folderMeta (fs : FS) (d : Det) (fid : Nat) : Det :=
   { d with fid := fid, fname := ((fs.items.get fid).map (·.name)).getD [], path := folderPath fs fid,
            crumbs := crumbs fs (fuel fs) (some fid) }
 
-/-- `getDashboard` incl. `refreshFolderMetadata` -/
-def getDash (st : St) (t : Nat) (id : Nat) : St × Option Det :=
+/-- `isDashboardOfOrg` (patch c20-5): the id is a dashboard of the org's own folder structure -/
+def ownsDash (st : St) (t id : Nat) : Bool :=
+  match (st.fs t).items.get id with
+  | some it => decide (it.ty = .dash)
+  | none => false
+
+/-- `getDashboard` incl. `refreshFolderMetadata`.  `old` = the behaviour before patch c20-5 (the details file
+was served to whatever org asked for the id) -/
+def getDashG (old : Bool) (st : St) (t : Nat) (id : Nat) : St × Option Det :=
+  if !old && !ownsDash st t id then (st, none) else
   match st.det.get id with
   | none => (st, none)
   | some d =>
@@ -543,9 +572,11 @@ def getDash (st : St) (t : Nat) (id : Nat) : St × Option Det :=
 
 /-- one row of `listItems`: the item's details are read through getDashboard (which refreshes stale folder
 metadata on the way) -/
-def listRow (fs : FS) (t : Nat) (acc : St × List Row) (e : Nat × Item) : St × List Row :=
+abbrev getDash := getDashG false
+
+def listRow (old : Bool) (fs : FS) (t : Nat) (acc : St × List Row) (e : Nat × Item) : St × List Row :=
   if e.1 = 0 then acc else
-  let r := getDash acc.1 t e.1
+  let r := getDashG old acc.1 t e.1
   let isD := decide (e.2.ty = .dash)
   let row : Row := {
     id := e.1, name := e.2.name, ty := e.2.ty, parent := e.2.parent,
@@ -557,10 +588,14 @@ def listRow (fs : FS) (t : Nat) (acc : St × List Row) (e : Nat × Item) : St ×
     payload := if isD then ((r.2.map (·.payload)).getD "") else "" }
   (r.1, acc.2 ++ [row])
 
-def listFold (fs : FS) (t : Nat) (items : List (Nat × Item)) (acc : St × List Row) : St × List Row :=
-  items.foldl (listRow fs t) acc
+def listFold (old : Bool) (fs : FS) (t : Nat) (items : List (Nat × Item)) (acc : St × List Row) : St × List Row :=
+  items.foldl (listRow old fs t) acc
 
-def step (st : St) : Op → St × Out
+/-- one operation.  `old = false`: the code WITH patches c20-3 (updateDashboard rejects an id that is not a
+dashboard; the path / breadcrumb walks are bounded by the number of items), c20-4 (updateFolder rejects an id
+that is not a folder) and c20-5 (getDashboard / toggleFavorite serve only dashboards of the caller's own
+folder structure); `old = true`: the behaviour before them -/
+def stepG (old : Bool) (st : St) : Op → St × Out
   | .createDash t name payload parent =>
     let fs := st.fs t
     if name = [] then (st, .res .invalid) else
@@ -592,6 +627,7 @@ def step (st : St) : Op → St × Out
     match fs.items.get id with
     | none => (st, .res .notFound)
     | some it =>
+      if !old && it.ty ≠ .dash then (st, .res .wrongType) else
       let cur := it.parent
       let moving : Bool := match newParent with | some np => decide (some np ≠ cur) | none => false
       let r : Except Res (FS × Item) :=
@@ -624,6 +660,7 @@ def step (st : St) : Op → St × Out
     match fs.items.get id with
     | none => (st, .res .notFound)
     | some it =>
+      if !old && it.ty ≠ .folder then (st, .res .wrongType) else
       let moving : Bool := match newParent with | some np => decide (some np ≠ it.parent) | none => false
       let r : Except Res (FS × Item) :=
         if moving then
@@ -681,7 +718,7 @@ def step (st : St) : Op → St × Out
       let fs' : FS := { items := dead.foldl (fun m x => m.del x) fs.items, order := dead.foldl (fun m x => m.del x) order1 }
       ({ st with fs := upd st.fs t fs', det := det }, .res .ok)
   | .getDash t id =>
-    match getDash st t id with
+    match getDashG old st t id with
     | (st', none) => (st', .res .notFound)
     | (st', some d) => (st', .dash d)
   | .contents t id =>
@@ -693,19 +730,26 @@ def step (st : St) : Op → St × Out
         (fs.items.get c).map (fun ci => (c, ci.name, ci.ty,
           if ci.ty = .folder then ((fs.order.get c).getD []).length else 0)))
       (st, .folder it.name it.ty kids (crumbs fs (fuel fs) (some id)))
-  | .list t => ((listFold (st.fs t) t (st.fs t).items (st, [])).1, .rows (listFold (st.fs t) t (st.fs t).items (st, [])).2)
-  | .favorite _ id =>
+  | .list t => ((listFold old (st.fs t) t (st.fs t).items (st, [])).1, .rows (listFold old (st.fs t) t (st.fs t).items (st, [])).2)
+  | .favorite t id =>
+    if !old && !ownsDash st t id then (st, .res .notFound) else
     match st.det.get id with
     | none => (st, .res .notFound)
     | some d => ({ st with det := st.det.put id { d with fav := !d.fav } }, .fav (!d.fav))
   | .restart => (st, .restarted)
 
-def run (st : St) : List Op → St × List Out
+abbrev step := stepG false
+abbrev stepOld := stepG true
+
+def runG (old : Bool) (st : St) : List Op → St × List Out
   | [] => (st, [])
   | op :: r =>
-    let (st1, o) := step st op
-    let (st2, os) := run st1 r
+    let (st1, o) := stepG old st op
+    let (st2, os) := runG old st1 r
     (st2, o :: os)
+
+abbrev run := runG false
+abbrev runOld := runG true
 
 def Op.tenant : Op → Option Nat
   | .createDash t _ _ _ => some t | .createFolder t _ _ => some t | .updateDash t _ _ _ _ => some t
@@ -718,11 +762,12 @@ end Dash
 /-! ## contact points (pkg/alerts/alertsqlite/alerts_sqlite.go, sqlite through gorm)
 
 Table `contacts` (primary key contact_id, UNIQUE contact_name — unique over ALL orgs, org_id) with the
-many-to-many association `Slack`.  Mirrors CreateContact :481 (a contact with the same name exists ⇒ returns
-nil WITHOUT creating anything), UpdateContactPoint :512 (no org check; `Association("Slack").Clear()` only
-when the new list is not empty, and BEFORE the `Save` whose UNIQUE failure is then reported — the clear is
-not rolled back; the saved row carries the caller's org id), DeleteContactPoint :663 (no org check),
-GetAllContactPoints :503.  Ids are UUIDs in the code, consecutive numbers (from 1) here. -/
+many-to-many association `Slack`.  The model follows the code WITH patches c20-6 / c20-7 / c20-8:
+CreateContact :481 (a contact with the same name exists ⇒ "already exist" error), UpdateContactPoint :512
+(the Slack list of the request replaces the stored one, clear + save in one transaction — a refused save
+changes nothing; still NO org check, the saved row carries the caller's org id), DeleteContactPoint :663
+(no org check), GetAllContactPoints :503.  The behaviour before the patches is kept as `stepOld`.
+Ids are UUIDs in the code, consecutive numbers (from 1) here. -/
 namespace Contact
 
 structure Row where
@@ -748,8 +793,8 @@ inductive Op where
 inductive Out where
   | res (r : Res)
   | created (id : Nat)
-  | notCreated            -- CreateContact answered nil and created nothing
-  | saveFailed            -- UpdateContactPoint: the Save failed (UNIQUE contact_name)
+  | notCreated            -- OLD: CreateContact answered nil and created nothing
+  | saveFailed            -- OLD: UpdateContactPoint: the Save failed (UNIQUE contact_name) after the lists were cleared
   | rows (l : List (Nat × Row))
   | restarted
   deriving DecidableEq
@@ -758,6 +803,27 @@ def nameUsed (rows : AL Nat Row) (name : Key) (except : Option Nat) : Bool :=
   rows.any (fun e => decide (e.2.name = name) && decide (some e.1 ≠ except))
 
 def step (st : St) : Op → St × Out
+  | .create t name pager slack =>
+    if nameUsed st.rows name none then (st, .res .exists_) else
+    ({ rows := st.rows.put st.next { name := name, org := t, pager := pager, slack := slack }, next := st.next + 1 },
+     .created st.next)
+  | .update t id name pager slack =>
+    match st.rows.get id with
+    | none => (st, .res .notFound)
+    | some _ =>
+      if nameUsed st.rows name (some id) then (st, .res .exists_) else
+      ({ st with rows := st.rows.put id { name := name, org := t, pager := pager, slack := slack } }, .res .ok)
+  | .delete _ id =>
+    match st.rows.get id with
+    | none => (st, .res .notFound)
+    | some _ => ({ st with rows := st.rows.del id }, .res .ok)
+  | .list t => (st, .rows (st.rows.filter (fun e => e.2.org = t)))
+  | .restart => (st, .restarted)
+
+/-- the behaviour before patches c20-6 / c20-7 / c20-8: a create with an existing name is acknowledged and
+dropped; the Slack association is cleared only when the new list is not empty, and BEFORE (outside the
+transaction of) the `Save` whose UNIQUE failure is then reported -/
+def stepOld (st : St) : Op → St × Out
   | .create t name pager slack =>
     if nameUsed st.rows name none then (st, .notCreated) else
     ({ rows := st.rows.put st.next { name := name, org := t, pager := pager, slack := slack }, next := st.next + 1 },
@@ -770,11 +836,167 @@ def step (st : St) : Op → St × Out
       if nameUsed st.rows name (some id) then ({ st with rows := st.rows.put id r1 }, .saveFailed) else
       ({ st with rows := st.rows.put id { name := name, org := t, pager := pager, slack := if slack = [] then r.slack else slack } },
        .res .ok)
-  | .delete _ id =>
+  | op => step st op
+
+def run (st : St) : List Op → St × List Out
+  | [] => (st, [])
+  | op :: r =>
+    let (st1, o) := step st op
+    let (st2, os) := run st1 r
+    (st2, o :: os)
+
+abbrev CVal := Key × String × List String
+
+/-- abstract state: (org, contact id) ↦ (name, pager, slack list) -/
+def abs (st : St) : Spec Nat Nat CVal :=
+  fun t id => match st.rows.get id with
+    | some r => if r.org = t then some (r.name, r.pager, r.slack) else none
+    | none => none
+
+/-- the name is held by a contact (of ANY org) other than `except` -/
+def NameUsed (s : Spec Nat Nat CVal) (name : Key) (except : Option Nat) : Prop :=
+  ∃ t id v, s t id = some v ∧ v.1 = name ∧ some id ≠ except
+
+/-- `o` is the documented answer: contact names are unique (over all orgs — as the table's UNIQUE index
+has it), a create is stored under the fresh id `next`, update / delete address the caller's own contact -/
+def OutOk (s : Spec Nat Nat CVal) (next : Nat) : Op → Out → Prop
+  | .create _ name _ _, o =>
+    (¬ NameUsed s name none ∧ o = .created next) ∨ (NameUsed s name none ∧ o = .res .exists_)
+  | .update t id name _ _, o =>
+    (s t id = none ∧ o = .res .notFound) ∨
+    (s t id ≠ none ∧ ¬ NameUsed s name (some id) ∧ o = .res .ok) ∨
+    (s t id ≠ none ∧ NameUsed s name (some id) ∧ o = .res .exists_)
+  | .delete t id, o => o = .res (s.delete t id).2
+  | .list t, .rows l =>
+    (l.map Prod.fst).Nodup ∧ ∀ id r, (id, r) ∈ l ↔ (s t id = some (r.name, r.pager, r.slack) ∧ r.org = t)
+  | .restart, o => o = .restarted
+  | _, _ => False
+
+/-- the abstract state after an operation that was answered `o` -/
+def specNext (s : Spec Nat Nat CVal) : Op → Out → Spec Nat Nat CVal
+  | .create t name pager slack, .created id => s.set t id (some (name, pager, slack))
+  | .update t id name pager slack, .res .ok => s.set t id (some (name, pager, slack))
+  | .delete t id, .res .ok => s.set t id none
+  | _, _ => s
+
+def RefinesWith (stp : St → Op → St × Out) : Spec Nat Nat CVal → St → List Op → Prop
+  | _, _, [] => True
+  | s, st, op :: r =>
+    OutOk s st.next op (stp st op).2 ∧ abs (stp st op).1 = specNext s op (stp st op).2 ∧
+    RefinesWith stp (specNext s op (stp st op).2) (stp st op).1 r
+
+abbrev Refines := RefinesWith step
+abbrev RefinesOld := RefinesWith stepOld
+
+/-- guard of one step: update and delete address a contact of the caller's org, or no contact at all
+(UpdateContactPoint / DeleteContactPoint and their handlers carry no org id: an id of another org is
+accepted — known finding kv/contact/foreign-tenant-write) -/
+def stepOwn (st : St) : Op → Bool
+  | .update t id _ _ _ =>
     match st.rows.get id with
+    | none => true
+    | some r => decide (r.org = t)
+  | .delete t id =>
+    match st.rows.get id with
+    | none => true
+    | some r => decide (r.org = t)
+  | _ => true
+
+def OwnIds : St → List Op → Bool
+  | _, [] => true
+  | st, op :: r => stepOwn st op && OwnIds (step st op).1 r
+
+def Op.tenant : Op → Option Nat
+  | .create t _ _ _ => some t | .update t _ _ _ _ => some t | .delete t _ => some t | .list t => some t
+  | .restart => none
+
+end Contact
+
+/-! ## alert definitions (pkg/alerts/alertsqlite/alerts_sqlite.go; driven the way the HTTP handlers do)
+
+Table `all_alerts` (primary key alert_id, UNIQUE alert_name over ALL orgs, org_id, contact_id, contact_name
+copied from the contact).  CreateAlert :210 (`isValid(name)`: not "" and not "*"; `isNewAlertName` :141
+answers true on BOTH branches, so a duplicate name is only caught by the UNIQUE index when the row is
+inserted; the contact must exist — in whatever org), GetAlert :272 (an unknown id answers an EMPTY alert, no
+error; no org check), UpdateAlert :361 as called by ProcessUpdateAlertRequest (GetAlert, overwrite the
+configuration fields, UpdateAlert: name valid, alert exists — the empty id of an unknown alert is "not valid" —,
+a CHANGED contact must exist and its name is copied, Save fails on a duplicate name; no org check, the row keeps
+its org), DeleteAlert :445 (no org check), GetAllAlerts :298.  The auxiliary contact create follows patch c20-8.
+Alerts and contacts are numbered separately from 1. -/
+namespace AlertDB
+
+structure Row where
+  name : Key
+  org : Nat
+  msg : String
+  cid : Nat
+  cname : Key
+  deriving DecidableEq
+
+structure St where
+  contacts : AL Nat Key
+  alerts : AL Nat Row
+  nextC : Nat
+  nextA : Nat
+
+def init : St := { contacts := [], alerts := [], nextC := 1, nextA := 1 }
+
+inductive Op where
+  | contact (t : Nat) (name : Key)
+  | create (t : Nat) (name : Key) (msg : String) (cid : Nat)
+  | update (t : Nat) (id : Nat) (name : Key) (msg : String) (cid : Option Nat)
+  | delete (t : Nat) (id : Nat)
+  | get (t : Nat) (id : Nat)
+  | list (t : Nat)
+  | restart
+
+inductive Out where
+  | res (r : Res)
+  | created (id : Nat)
+  | alert (id : Nat) (r : Row)
+  | noAlert                      -- GetAlert of an unknown id: an empty alert
+  | rows (l : List (Nat × Row))
+  | restarted
+  deriving DecidableEq
+
+/-- `isValid` -/
+def validName (n : Key) : Bool := !(n = [] || n = [42])
+
+def nameUsed (alerts : AL Nat Row) (name : Key) (except : Option Nat) : Bool :=
+  alerts.any (fun e => decide (e.2.name = name) && decide (some e.1 ≠ except))
+
+def step (st : St) : Op → St × Out
+  | .contact _ name =>
+    if st.contacts.any (fun e => e.2 = name) then (st, .res .exists_) else
+    ({ st with contacts := st.contacts.put st.nextC name, nextC := st.nextC + 1 }, .created st.nextC)
+  | .create t name msg cid =>
+    if !validName name then (st, .res .invalid) else
+    match st.contacts.get cid with
+    | none => (st, .res .parentNotFound)
+    | some cn =>
+      if nameUsed st.alerts name none then (st, .res .exists_) else
+      ({ st with alerts := st.alerts.put st.nextA { name := name, org := t, msg := msg, cid := cid, cname := cn },
+                 nextA := st.nextA + 1 }, .created st.nextA)
+  | .update _ id name msg cid =>
+    if !validName name then (st, .res .invalid) else
+    match st.alerts.get id with
+    | none => (st, .res .invalid)
+    | some r =>
+      let newCid := cid.getD r.cid
+      match (if newCid = r.cid then some r.cname else st.contacts.get newCid) with
+      | none => (st, .res .parentNotFound)
+      | some cn =>
+        if nameUsed st.alerts name (some id) then (st, .res .exists_) else
+        ({ st with alerts := st.alerts.put id { r with name := name, msg := msg, cid := newCid, cname := cn } }, .res .ok)
+  | .delete _ id =>
+    match st.alerts.get id with
     | none => (st, .res .notFound)
-    | some _ => ({ st with rows := st.rows.del id }, .res .ok)
-  | .list t => (st, .rows (st.rows.filter (fun e => e.2.org = t)))
+    | some _ => ({ st with alerts := st.alerts.del id }, .res .ok)
+  | .get _ id =>
+    match st.alerts.get id with
+    | none => (st, .noAlert)
+    | some r => (st, .alert id r)
+  | .list t => (st, .rows (st.alerts.filter (fun e => e.2.org = t)))
   | .restart => (st, .restarted)
 
 def run (st : St) : List Op → St × List Out
@@ -784,59 +1006,7 @@ def run (st : St) : List Op → St × List Out
     let (st2, os) := run st1 r
     (st2, o :: os)
 
-/-- abstract state: (org, contact id) ↦ (name, pager, slack list) -/
-def abs (st : St) : Spec Nat Nat (Key × String × List String) :=
-  fun t id => match st.rows.get id with
-    | some r => if r.org = t then some (r.name, r.pager, r.slack) else none
-    | none => none
-
-/-- the documented keyed store: a create is stored under a fresh id (`next`), update / delete address the
-caller's own contact -/
-def specStep (s : Spec Nat Nat (Key × String × List String)) (next : Nat) : Op → Spec Nat Nat (Key × String × List String)
-  | .create t name pager slack => s.set t next (some (name, pager, slack))
-  | .update t id name pager slack => (s.update t id (name, pager, slack)).1
-  | .delete t id => (s.delete t id).1
-  | _ => s
-
-def OutOk (s : Spec Nat Nat (Key × String × List String)) (next : Nat) : Op → Out → Prop
-  | .create _ _ _ _, o => o = .created next
-  | .update t id name pager slack, o => o = .res (s.update t id (name, pager, slack)).2
-  | .delete t id, o => o = .res (s.delete t id).2
-  | .list t, .rows l =>
-    (l.map Prod.fst).Nodup ∧ ∀ id r, (id, r) ∈ l ↔ (s t id = some (r.name, r.pager, r.slack) ∧ r.org = t)
-  | .restart, o => o = .restarted
-  | _, _ => False
-
-def Refines : Spec Nat Nat (Key × String × List String) → St → List Op → Prop
-  | _, _, [] => True
-  | s, st, op :: r =>
-    OutOk s st.next op (step st op).2 ∧ abs (step st op).1 = specStep s st.next op ∧
-    Refines (specStep s st.next op) (step st op).1 r
-
-/-- guard of one step: the name of a create / update is used by no other contact (of ANY org), an update
-with an empty Slack list meets an empty stored list, update and delete address a contact of the caller's org
-(or no contact at all) -/
-def stepClean (st : St) : Op → Bool
-  | .create _ name _ _ => !nameUsed st.rows name none
-  | .update t id name _ slack =>
-    match st.rows.get id with
-    | none => true
-    | some r => decide (r.org = t) && !nameUsed st.rows name (some id) && (!slack.isEmpty || r.slack.isEmpty)
-  | .delete t id =>
-    match st.rows.get id with
-    | none => true
-    | some r => decide (r.org = t)
-  | _ => true
-
-def Clean : St → List Op → Bool
-  | _, [] => true
-  | st, op :: r => stepClean st op && Clean (step st op).1 r
-
-def Op.tenant : Op → Option Nat
-  | .create t _ _ _ => some t | .update t _ _ _ _ => some t | .delete t _ => some t | .list t => some t
-  | .restart => none
-
-end Contact
+end AlertDB
 
 /-! ## lookup files (pkg/lookups/lookups.go)
 
